@@ -577,10 +577,13 @@ def gen_malformed(rng):
         elif m < 0.7:
             v = rng.choice([small_scalar(rng), gen_string(rng), small_ilist(rng), "", "0", "0,0,1", "384,384,1", "0,0,0",
                             "384,0", "5", " 5", "-1", "ap", "a", "nidq", "imec", "7,", "0.0", "1,2,3,4,5"])
+            if k in ("niMNGain", "niMAGain") and "," in v and is_numeric(v):
+                v = small_scalar(rng)       # list-valued gains broadcast in NumPy: outside the model
             L[i] = k + "=" + v
         elif m < 0.85:
             k2 = rng.choice(L).split("=", 1)[0]
-            L.append(k2 + "=" + rng.choice([small_scalar(rng), small_ilist(rng), gen_string(rng)]))
+            L.append(k2 + "=" + rng.choice([small_scalar(rng), gen_string(rng)] +
+                                            ([] if k2 in ("niMNGain", "niMAGain") else [small_ilist(rng)])))
         else:
             L.insert(i, rng.choice(["", "junk", "typeEnabled=1", "imroTbl=5", "imroTbl=(0,2)(0 0 0  250 1)(1 0 0 500  1)",
                                     "niMNGain=3", "imDatPrb_type=7", "nSavedChans=3", "imMaxInt=0", "snsApLfSy=1,0,1"]))
